@@ -98,7 +98,7 @@ public :
                                     unsigned int currentLoop,
                                     unsigned int& nextState,
                                     unsigned int& nextLoop,
-                                    XMLSize_t elementIndex,
+                                    XMLSize_t& elementIndex,
                                     SubstitutionGroupComparator * comparator) const;
 
     virtual void checkUniqueParticleAttribution
@@ -177,7 +177,7 @@ MixedContentModel::handleRepetitions( const QName* const /*curElem*/,
                                       unsigned int /*currentLoop*/,
                                       unsigned int& /*nextState*/,
                                       unsigned int& /*nextLoop*/,
-                                      XMLSize_t /*elementIndex*/,
+                                      XMLSize_t& /*elementIndex*/,
                                       SubstitutionGroupComparator * /*comparator*/) const
 {
     return true;
